@@ -134,6 +134,9 @@ func init() {
 			thorough = append(thorough, &Job{Pkg: "", Func: "ZZ_C03_Pipeline", Args: []int64{2, kind, 0, 1}, Bounds: b})
 		}
 		quick = append(quick, &Job{Pkg: "", Func: "ZZ_C03_Pipeline", Args: []int64{2, 1, 0, 1}, Bounds: b})
+		for _, k := range []int64{0, 1, 5} {
+			quick = append(quick, &Job{Pkg: "", Func: "ZZ_C03_LateInsert", Args: []int64{k}, Bounds: "two handlers (all variants), one inbound event, a third handler inserted first / in the middle / last, the same event again"})
+		}
 		quick = append(quick, &Job{Pkg: "", Func: "ZZ_C03_Pipeline", Args: []int64{2, 5, 3, 0}, Bounds: b + "; entry 3: Channel.Trigger after the channel was closed"})
 		quick = append(quick, &Job{Pkg: "", Func: "ZZ_C03_Pipeline", Args: []int64{2, 2, 4, 0}, Bounds: b + "; entry 4: ctx.Write whose transport write is refused - the exception travels from the head"})
 		for _, kind := range []int64{2, 5} {
@@ -145,7 +148,7 @@ func init() {
 		thorough = append(thorough, &Job{Pkg: "", Func: "ZZ_C03_Pipeline", Args: []int64{3, 3, 0, 0}, Bounds: b, Limit: 3600e9})
 		Specs["C03"] = &Spec{
 			Jobs:      jobsBy(quick, thorough),
-			MustReach: []string{"c03-done", "c03-trigger-after-close", "c03-ctx-write-fault", "c03-illegal-position", "c03-write-reaches-transport", "c03-exception-closes"},
+			MustReach: []string{"c03-done", "c03-trigger-after-close", "c03-ctx-write-fault", "c03-late-insert-done", "c03-illegal-position", "c03-write-reaches-transport", "c03-exception-closes"},
 			Bounds: map[string]string{
 				"quick":    "all programs of 2 building operations (single-handler calls), 8 handler variants per handler, every insert position incl. illegal ones; all six event kinds through pipeline.Fire*, write/user-event also through Channel.Write/Trigger and ctx.Write/Trigger from every user position",
 				"thorough": "plus two-handler calls with a repeated instance, and programs of 3 operations for read/exception/write/event",
